@@ -32,5 +32,8 @@ for sid in ids:
     finally:
         run('git -C /repo reset -q && git -C /repo checkout -- . && git -C /repo clean -fdq')
     print(sid, res[sid], flush=True)
-json.dump(res, open('/verif/seeded/REGRESSION.json', 'w'), indent=1, sort_keys=True)
+out = '/verif/seeded/REGRESSION.json'
+allres = json.load(open(out)) if os.path.exists(out) and sys.argv[1:] else {}
+allres.update(res)
+json.dump(allres, open(out, 'w'), indent=1, sort_keys=True)
 print('missed:', [k for k, v in res.items() if v == 'MISSED'])
